@@ -9,5 +9,6 @@ CONSTANTS
   Ops = {}
   ReqVers = {}
   Lazies = {}
+  Dev = {}
   Known = {}
 CHECK_DEADLOCK FALSE
